@@ -301,6 +301,12 @@ func run(r *vt.Run, t vt.TB, s spec) {
 			r.Harness(t, "locks held by an unexpected process: %s (oracle pid %d)", obs, env.O.Pid)
 		}
 		seen := obs.SQLiteLevel()
+		if ownRelease != nil && obs.Shared.Type == "write" {
+			// a handle of this process is inside a read (parked in its row
+			// callback): its SHARED lock must keep every writer out
+			r.Violation(t, s, "writer-exclusive-during-our-read", "after %v: the writer holds EXCLUSIVE (%s) while a handle of this process is still inside a read", history, obs)
+			return
+		}
 		// cross-check with the model where the model is definite
 		if !inTxn && !cursorW && !cursorR2 && seen != "UNLOCKED" {
 			r.Harness(t, "model says nothing is locked, probe sees %s (%s) after %v", seen, obs, history)
